@@ -277,7 +277,10 @@ def check(spec, ctx):
     if spec["audio"].startswith("rel"):
         audio = Path("rel audio") / "dir"  # a relative audio directory (never touched on disk: only path arithmetic)
     obj, _ = graphs.build(spec, audio_root=audio if spec["audio"] != "none" else None)
-    path = os.path.join(d, "doc.json")
+    # the document's file name: plain, with a version or a date or a second extension in front of .json, with a blank
+    import zlib as _zlib
+
+    path = os.path.join(d, ["doc.json", "doc.json", "doc.v1.2.json", "2024-05-01.dataset.json", "run.aoef.json", "doc 01.json", ".hidden.json"][_zlib.crc32(json.dumps(spec["top"], sort_keys=True, default=str).encode()) // 7 % 7])
     ctx.case(spec, nontrivial=nontrivial(spec), labels=[spec["ctype"], f"audio={spec['audio']}", f"cycles={spec['cycles']}"] + spec_classes(spec) + field_labels(spec))
     cur = obj
     for cycle in range(1, spec["cycles"] + 1):
